@@ -35,6 +35,8 @@ def main():
             r = subprocess.run(["./check", prop, "--tier", "quick"], cwd="/verif", capture_output=True, text=True)
         finally:
             subprocess.check_call(["git", "-C", "/repo", "checkout", "--", "."])
+            # evidence must describe /repo itself: rewrite it from the clean tree
+            subprocess.run(["./check", prop, "--tier", "quick"], cwd="/verif", capture_output=True, text=True)
         lines = [l for l in r.stdout.splitlines() if l.startswith("  ") or l.startswith("VIOLATION")]
         rules = sorted({l.split("[")[1].split("]")[0] for l in lines if "[" in l and l.startswith("  ")})
         meta = {"seed": sid, "breaks_property": prop, "change": change, "needs_to_manifest": needs,
